@@ -189,7 +189,7 @@ fn c11_tree(ctx: &mut Ctx, tree: &Value) {
     }
 }
 
-pub fn c11(ctx: &mut Ctx) {
+fn c11_core(ctx: &mut Ctx) {
     let mut idx = 0u64;
     for t in fixed_trees() {
         idx += 1;
@@ -384,7 +384,7 @@ fn c12_some(ctx: &mut Ctx, data: &Value, need: u64, keys: &[Value], computed: bo
     }
 }
 
-pub fn c12(ctx: &mut Ctx) {
+fn c12_core(ctx: &mut Ctx) {
     let trees = vec![
         json!({}),
         json!({"a": 1, "b": null, "c": "", "d": [], "e": {"f": 0, "g": null}, "arr": [1, null], "0": "z", "a.b": 1}),
@@ -463,4 +463,14 @@ pub fn c12(ctx: &mut Ctx) {
             ctx.sample(json!({"data": t, "keys": keys, "need": need}));
         }
     }
+}
+
+pub fn c11(ctx: &mut Ctx) {
+    c11_core(ctx);
+    crate::props_sizes::c11(ctx);
+}
+
+pub fn c12(ctx: &mut Ctx) {
+    c12_core(ctx);
+    crate::props_sizes::c12(ctx);
 }
